@@ -395,6 +395,132 @@ func genF6Witness(rng *rand.Rand, emit func(*Sx)) {
 	}
 }
 
+// GenC13x: LMTP transfers whose final response depends on WHEN the backend sets its statuses, and
+// status collectors across transactions.
+func GenC13x(rng *rand.Rand, thorough bool, emit func(*Sx)) {
+	// (a) a LAST chunk cut short: the backend learns it from its reader, THEN sets statuses
+	for _, term := range []Raw{{Kind: RawEOF}, {Kind: RawTimeout}, {Kind: RawErr}} {
+		for _, nr := range []int{1, 2, 3} {
+			for _, sess := range []bool{true, false} {
+				cfg := DefaultCfg()
+				cfg.LMTP, cfg.LMTPSession = true, sess
+				f := newF(cfg)
+				f.hello()
+				f.cmd("MAIL FROM:<s@ok>", 250)
+				p := DefaultPlan()
+				p.Prop = false
+				for i := 0; i < nr; i++ {
+					f.cmd(fmt.Sprintf("RCPT TO:<r%d@ok>", i), 250)
+				}
+				want := make([]int, nr)
+				for i := range want {
+					want[i] = 250
+				}
+				if sess {
+					p.Status = []StatusCall{{Addr: "r0@ok", Err: rejectErr()}}
+					want[0] = 550
+				}
+				f.script.Data = []DataPlan{p}
+				f.cmd("BDAT 10 LAST")
+				f.raw("only4")
+				if term.Kind == RawEOF {
+					// the connection ends here: replies may or may not reach the (closed) peer; no expectation
+					f.known = false
+				} else {
+					f.known = false
+				}
+				_ = want
+				emit(RunConv(f.caseOf("C13", segStream(rng, f.out, nil, 0, term))))
+			}
+		}
+	}
+	// (b) a transaction refused for its size must not leave anything behind for the next one
+	for _, sess := range []bool{true, false} {
+		for _, firstLast := range []string{"", " LAST"} {
+			cfg := DefaultCfg()
+			cfg.LMTP, cfg.LMTPSession = true, sess
+			cfg.MaxBytes = 5
+			f := newF(cfg)
+			f.hello()
+			f.cmd("MAIL FROM:<s@ok>", 250)
+			f.cmd("RCPT TO:<old@ok>", 250)
+			f.cmd("BDAT 8"+firstLast, 552)
+			f.cut()
+			f.raw("toolarge")
+			f.cmd("MAIL FROM:<s2@ok>", 250)
+			f.cmd("RCPT TO:<n0@ok>", 250)
+			f.cmd("RCPT TO:<n1@ok>", 250)
+			p := DefaultPlan()
+			if sess {
+				p.Status = []StatusCall{{Addr: "n1@ok", Err: rejectErr()}}
+			}
+			f.script.Data = []DataPlan{p}
+			if sess {
+				f.expect(250, 550)
+			} else {
+				f.expect(250, 250)
+			}
+			f.cmd("BDAT 3 LAST")
+			f.cut()
+			f.raw("abc")
+			f.cmd("QUIT", 221)
+			f.add(L(A("expect-del"), XS("abc")))
+			emit(RunConv(f.caseOf("C13", segStream(rng, f.out, f.cuts, 0, rawEOF))))
+		}
+	}
+}
+
+// GenC17conv: backend errors at every callback through the real server.
+func GenC17conv(rng *rand.Rand, thorough bool, emit func(*Sx)) {
+	errs := []BErr{rejectErr(), BSmtp(451, [3]int{4, 3, 0}, "try again later"), BSmtp(554, [3]int{0, 0, 0}, "no enhanced code given"),
+		BSmtp(550, [3]int{5, 1, 1}, "line one\nline two"), BPlain("plain failure")}
+	for ei, e := range errs {
+		for _, lmtp := range []bool{false, true} {
+			for site := 0; site < 5; site++ {
+				cfg := DefaultCfg()
+				cfg.LMTP = lmtp
+				if site == 4 {
+					cfg.MaxBytes = 10
+				}
+				f := newF(cfg)
+				code := codeOf(e)
+				if e.Kind == "plain" {
+					code = 451
+				}
+				switch site {
+				case 0:
+					f.script.NS = []BErr{e}
+					f.cmd(map[bool]string{false: "EHLO c.example", true: "LHLO c.example"}[lmtp], code)
+					f.cmd("QUIT", 221)
+				case 1:
+					f.hello()
+					f.script.Mail = []BErr{e}
+					f.cmd("MAIL FROM:<s@ok>", code)
+					f.cmd("QUIT", 221)
+				case 2:
+					f.hello()
+					f.cmd("MAIL FROM:<s@ok>", 250)
+					f.script.Rcpt = []BErr{e}
+					f.cmd("RCPT TO:<r@ok>", code)
+					f.cmd("QUIT", 221)
+				default:
+					f.hello()
+					f.cmd("MAIL FROM:<s@ok>", 250)
+					f.cmd("RCPT TO:<r@ok>", 250)
+					f.cmd("DATA", 354)
+					p := DefaultPlan()
+					p.Ret, p.Prop = e, false
+					f.script.Data = []DataPlan{p}
+					f.raw("a message that is longer than ten octets\r\n.\r\n")
+					f.expect(codeOf(e)) // the backend's own verdict, also when the size limit was hit
+					f.cmd("QUIT", 221)
+				}
+				emit(RunConv(f.caseOf("C17", segStream(rng, f.out, nil, (ei+site)%3, rawEOF))))
+			}
+		}
+	}
+}
+
 // GenC06: the message size limit.
 func GenC06(rng *rand.Rand, thorough bool, emit func(*Sx)) {
 	limits := []int{2, 5, 10, 12, 50}
@@ -1004,6 +1130,31 @@ func GenC19(rng *rand.Rand, thorough bool, emit func(*Sx)) {
 		f.expect(500)
 		f.add(L(A("expect-last"), Num(500)))
 		emit(RunConv(f.caseOf("C19", segStream(rng, f.out, nil, 3, rawEOF))))
+	}
+	// (b2) a refused BDAT whose chunk stalls (read timeout inside the discarded octets): the line
+	// limit must be armed again afterwards
+	for _, kind := range []RawKind{RawTimeout, RawErr} {
+		for _, pre := range []int{0, 1, 2} {
+			cfg := DefaultCfg()
+			cfg.MaxLine = 100
+			f := newF(cfg)
+			if pre >= 1 {
+				f.hello()
+			}
+			if pre >= 2 {
+				f.cmd("MAIL FROM:<s@ok>", 250) // no RCPT: BDAT is refused
+			}
+			f.cmd("BDAT 50", 502)
+			f.raw("0123456789")
+			k := len(f.out)
+			f.cmd("NOOP "+strings.Repeat("z", 300), 500)
+			f.raw("MAIL FROM:<late@x>\r\n")
+			f.add(L(A("must-not-mail"), XS("late@x")))
+			f.add(L(A("expect-last"), Num(500)))
+			raws := []Raw{{Kind: RawData, Data: append([]byte(nil), f.out[:k]...)}, {Kind: kind},
+				{Kind: RawData, Data: append([]byte(nil), f.out[k:]...)}, rawEOF}
+			emit(RunConv(f.caseOf("C19", raws)))
+		}
 	}
 	// (c) the error threshold
 	bads := []struct {
